@@ -127,7 +127,7 @@ def run_history(seed, env, res, probes, allow_subprocess=False):
     sizes_seen = []
     steps = rnd.randint(5, 40)
     for step in range(steps):
-        op = rnd.choice(["resize", "resize", "resize_back", "resize_back", "pixels", "swap_on", "swap_off", "q_on", "q_off", "ratio", "xt", "read", "read", "read", "read_ratio", "probe", "probe", "read_colours", "read_name"] + (["subprocess"] if allow_subprocess else []))
+        op = rnd.choice(["resize", "resize", "resize_back", "resize_back", "pixels", "swap_on", "swap_off", "q_on", "q_off", "ratio", "xt", "read", "read", "read", "read_ratio", "probe", "probe", "probe_resize", "read_colours", "read_name"] + (["subprocess"] if allow_subprocess else []))
         ops.append(op)
         if m.term[:2] not in sizes_seen:
             sizes_seen.append(m.term[:2])
@@ -268,6 +268,25 @@ def run_history(seed, env, res, probes, allow_subprocess=False):
                 return
             if slot is None:
                 m.memo[op] = "enabled" if m.queries else "disabled"
+        elif op == "probe_resize":
+            # the terminal is resized while the memoized body is running: whatever the call
+            # returns, the value it caches belongs to the size the body saw, so the next
+            # call (new size) must compute again
+            cols, rows = rnd.randint(1, 200), rnd.randint(1, 60)
+            if (cols, rows) == m.term[:2]:
+                cols += 1
+            new_term = (cols, rows, cols * 7, rows * 15)
+            probes.ts_probe._invalidate_terminal_size_cache()
+            old = m.term[:2]
+            probes.resize_in_body = lambda: env.set_winsize(*new_term)
+            v = probes.ts_probe()
+            probes.resize_in_body = None
+            m.term = new_term
+            res.count("resizes landing inside a memoized body")
+            if v[1] != old:
+                fail("terminal-size-probe", "body saw %s, terminal was %s" % (v[1], old))
+                return
+            probes.ts_last = old
         elif op == "probe":
             cols, rows = m.term[:2]
             n0 = probes.ts_calls
@@ -294,11 +313,16 @@ class Probes:
         self.c_calls = {}
         self.lock = threading.Lock()
 
+        self.resize_in_body = None
+
         @utils.terminal_size_cached
         def ts_probe():
             self.ts_calls += 1
             time.sleep(0)
-            return (self.ts_calls, tuple(utils.get_terminal_size()))
+            ts = tuple(utils.get_terminal_size())
+            if self.resize_in_body:
+                self.resize_in_body()
+            return (self.ts_calls, ts)
 
         @utils.cached
         def c_probe(*args, **kw):
